@@ -75,6 +75,6 @@ claim("C15", "differential testing of argument resolution against a reference re
       "Unsupplied variables nested inside literals are outside the domain (the statement does not determine their value). One recorded panic (numbers beyond int64/float64 in custom-scalar positions) is matched by its exact signature.",
       "6/C15")
 claim("C20", "generated-input search with a well-formedness oracle over every error-producing entry point, coverage measured in distinct message templates",
-      "Error-biased generators drive the lexer, all parser entry points, LoadSchema, Validate/LoadQuery and VariableValues with named and unnamed sources; every error value is checked for message, rule, location, file, JSON shape and path round trip. Paths are enumerated exhaustively to length 3 and sampled to length 6.",
+      "Error-biased generators drive the lexer, all parser entry points, LoadSchema, Validate/LoadQuery (default rules, explicit rule lists, and the default rules after ReplaceRule/RemoveRule edits of the global rule set that amount to the identity) and VariableValues with named and unnamed sources; every error value is checked for message, rule, location, file, JSON shape and path round trip. Paths are enumerated exhaustively to length 3 and sampled to length 6.",
       "Coverage is reported as distinct message templates reached per entry point; a template list that shrinks between runs indicates a generator regression, not a violation.",
       "6/C20")
